@@ -14,6 +14,7 @@ Premises, all explicit in the statements:
 An execution is a stream `run : Nat → LState` with `act n` the action taken at step `n`.
 -/
 import ArvVerif.Proofs.C15_Live4
+import ArvVerif.Props.C15
 namespace ArvVerif.C15
 open ArvVerif.C14 (Uuid IType)
 
@@ -112,6 +113,61 @@ theorem C15_restart_safe (s : LState) (h0 : 0 < s.faults) :
     refine ⟨restartInst i, List.mem_map.mpr ⟨i, hi, rfl⟩, restartInst_job i, restartInst_ty i, ?_⟩
     unfold restartInst
     split <;> rfl
+
+/-! ### the pool steps of the liveness system are the L2 responses
+
+`IPh.wstate`/`Health.idleB` say which `worker.State` / `IdleBehavior` a phase of the liveness system
+stands for (a broken instance looks like any other to the dispatcher until its probes time out).
+Each dispatcher-side pool step of `Step` maps, under this reading, to the response proved for the
+L2 worker model in Props/C15.lean. -/
+
+def IPh.wstate : IPh → Option C14.WState
+  | .creating | .gone => none
+  | .booting => some .booting
+  | .unknown _ => some .unknown
+  | .up none => some .idle
+  | .up (some _) => some .running
+  | .shutP _ | .shutF _ => some .shutdown
+
+def Health.idleB : Health → C14.IdleB
+  | .ok | .broken => .run
+  | .drain => .drain
+
+/-- `idleTimeout`, `drainShutdown`, `brokenTimeout` (boot and probe variants), `destroyRetry` and the
+absence of `start` on anything but `up none`/`ok`, read as statements about a C14 `Worker` in the
+corresponding state. -/
+theorem C15_live_pool_steps_match_responses (w : C14.Worker) (T : Timeouts) (gu : List Uuid) (now : Nat) :
+    -- idleTimeout: up none / ok  →  shutP
+    (some w.state = (IPh.up none).wstate → w.idleB = Health.ok.idleB → ∀ d, T.idle ≤ d →
+      some (probeTick w T gu d now).1.state = (IPh.shutP none).wstate) ∧
+    -- drainShutdown: booting or up none / drain  →  shutP
+    ((some w.state = IPh.booting.wstate ∨ some w.state = (IPh.up none).wstate) → w.idleB = Health.drain.idleB →
+      ∀ d, some (probeTick w T gu d now).1.state = (IPh.shutP none).wstate) ∧
+    -- brokenTimeout: booting / broken (boot probe keeps failing)  →  shutP
+    (some w.state = IPh.booting.wstate → w.idleB = Health.broken.idleB → ∀ pi : ProbeIn, pi.bootOk = false →
+      T.booting ≤ pi.dur → some (probeAndUpdate w T gu pi now).1.state = (IPh.shutP none).wstate) ∧
+    -- brokenTimeout: up j / broken (run probe keeps failing)  →  shutP j
+    (∀ j, some w.state = (IPh.up j).wstate → w.idleB = Health.broken.idleB → ∀ pi : ProbeIn, pi.listOk = false →
+      T.probe ≤ pi.dur → some (probeAndUpdate w T gu pi now).1.state = (IPh.shutP j).wstate) := by
+  refine ⟨?_, ?_, ?_, ?_⟩
+  · intro hs hb d hd
+    have hs' : w.state = .idle := by simpa [IPh.wstate] using hs
+    rw [(C15_resp_idle_timeout w T gu d now hs' hb hd).1]; rfl
+  · intro hs hb d
+    have hs' : w.state = .booting ∨ w.state = .idle := by
+      rcases hs with h | h
+      · exact Or.inl (by simpa [IPh.wstate] using h)
+      · exact Or.inr (by simpa [IPh.wstate] using h)
+    rw [(C15_resp_drain_shutdown w T gu d now hb (hs'.elim Or.inl (fun h => Or.inr (Or.inl h)))).1]; rfl
+  · intro hs hb pi hboot hd
+    have hs' : w.state = .booting := by simpa [IPh.wstate] using hs
+    rw [C15_resp_boot_timeout w T gu pi now hs' (by rw [hb]; decide) hboot hd]; rfl
+  · intro j hs hb pi hl hd
+    have hs' : w.state = .idle ∨ w.state = .running := by
+      cases j with
+      | none => exact Or.inl (by simpa [IPh.wstate] using hs)
+      | some j => exact Or.inr (by simpa [IPh.wstate] using hs)
+    rw [C15_resp_unreachable_timeout w T gu pi now hs' (by rw [hb]; decide) hl hd]; rfl
 
 /-! ### non-vacuity: a fair execution in which a container is locked, gets an instance created,
 runs, completes, and the instance is shut down for idleness and destroyed -/
